@@ -156,14 +156,22 @@ func (e *env) checkHist(fs fileSpec, depth int) {
 				}
 				c.Count("seeks", 1)
 				cur = o.N
+				if !r.SeekExact() {
+					e.fail(fs, "hist:seek-present-not-reported-exact", "%s: the seek to a stored timestamp succeeded but is not reported as an exact hit", where())
+					return false
+				}
 			case "A":
 				err := r.SeekTS(o.TS)
 				c.Count("seeks", 1)
 				switch {
 				case err == nil && o.Cls == "toolate":
 					// By design the reader answers a timestamp newer than everything
-					// with a rewind to the newest line.
+					// with a rewind to the newest line, reported as "no error, not exact".
 					cur = n - 1
+					if r.SeekExact() {
+						e.fail(fs, "hist:seek-absent-reported-exact", "%s: a seek to a timestamp newer than everything is reported as an exact hit (the consumer then skips the newest record)", where())
+						return false
+					}
 				case err == nil:
 					e.fail(fs, "hist:seek-absent-accepted", "%s: seek to an absent timestamp reported success", where())
 					return false
